@@ -980,6 +980,10 @@ def plan(pid: str, tier: str, rng: random.Random) -> list[dict]:
                             cancel_with_unpause=bool(ua and (at + (ua or 0)) % 3 == 0))
             for at in range(4, 30 if thorough else 16, 2):
                 for stage in range(min(2, len(spec["stages"]))):
+                    if n == "syn_taskless_after_only" and stage == 1:
+                        # NOT MODELLED (stated in DESIGN 0.1): an operator restart of a task-less stage that already has an
+                        # after stage - the real re-plan re-sends StartStage to the finished after stage, Engine.v does not
+                        continue
                     add(kind="inject", what="restart", at=at, stage=stage, spec=spec, name=n, policy="fifo")
         # pause with parallel branches in flight, then unpause + cancel together, remaining messages in random order
         par2 = {"stages": [S("A"), S("B", ["A"], tasks=[["ok"], ["ok"]]), S("C", ["A"], tasks=[["ok"]])]}
